@@ -30,6 +30,10 @@ COLS = {
     "node": ["id", "parent_id", "name", "x"],
 }
 STR_COLS = {"name", "note"}
+EMP_COLS = ["id", "type", "boss_id", "name", "x"]
+# single-table hierarchy: class -> discriminator values of the class and its subclasses
+EMP_DISC = {"Employee": None, "Engineer": ["eng"], "Manager": ["mgr", "boss"], "Boss": ["boss"]}
+EMP_TYPE_CLS = {"emp": "Employee", "eng": "Engineer", "mgr": "Manager", "boss": "Boss"}
 CLS_TABLE = {"Parent": "parent", "Child": "child", "Grandchild": "grandchild", "Tag": "tag", "Node": "node"}
 TABLE_CLS = {v: k for k, v in CLS_TABLE.items()}
 # columns deferred in the mapping (undefer / undefer_group have something to do)
@@ -94,6 +98,12 @@ class Family:
             "node", md, Column("id", Integer, primary_key=True), Column("parent_id", ForeignKey("node.id")), Column("name", String), Column("x", Integer)
         )
 
+        # single-table inheritance hierarchy (used by C41 "sti" shapes only; not part of RELS / the C40 snapshot)
+        t["employee"] = Table(
+            "employee", md, Column("id", Integer, primary_key=True), Column("type", String, nullable=False),
+            Column("boss_id", ForeignKey("employee.id")), Column("name", String), Column("x", Integer),
+        )
+
         def _ob(cls, rel):
             tt = t[CLS_TABLE[RELS[cls][rel][0]]]
             return [tt.c[c].desc() if d else tt.c[c].asc() for c, d in REL_ORDER[(cls, rel)]]
@@ -129,11 +139,23 @@ class Family:
                 "parent": relationship(Node, back_populates="children", remote_side=[t["node"].c.id]),
             },
         )
+        Employee, Engineer, Manager, Boss = mk("Employee"), None, None, None
+        Engineer = type("Engineer", (Employee,), {})
+        Manager = type("Manager", (Employee,), {})
+        Boss = type("Boss", (Manager,), {})
+        reg.map_imperatively(
+            Employee, t["employee"], polymorphic_on=t["employee"].c.type, polymorphic_identity="emp",
+            properties={"boss": relationship(Employee, remote_side=[t["employee"].c.id])},
+        )
+        reg.map_imperatively(Engineer, inherits=Employee, polymorphic_identity="eng")
+        reg.map_imperatively(Manager, inherits=Employee, polymorphic_identity="mgr")
+        reg.map_imperatively(Boss, inherits=Manager, polymorphic_identity="boss")
         reg.configure()
         self.registry = reg
         self.metadata = md
         self.tables = t
-        self.classes = {"Parent": Parent, "Child": Child, "Grandchild": Grandchild, "Tag": Tag, "Node": Node}
+        self.classes = {"Parent": Parent, "Child": Child, "Grandchild": Grandchild, "Tag": Tag, "Node": Node,
+                        "Employee": Employee, "Engineer": Engineer, "Manager": Manager, "Boss": Boss}
 
 
 def family() -> Family:
@@ -238,6 +260,8 @@ def load_engine(data):
                 conn.execute(fam.tables[tname].insert(), [dict(zip(cols, r)) for r in rows])
         if data.get("parent_tag"):
             conn.execute(fam.tables["parent_tag"].insert(), [{"parent_id": a, "tag_id": b} for a, b in data["parent_tag"]])
+        if data.get("employee"):
+            conn.execute(fam.tables["employee"].insert(), [dict(zip(EMP_COLS, r)) for r in data["employee"]])
     return eng
 
 
